@@ -1019,12 +1019,12 @@ void campaign(Ctx& ctx)
 	{
 		enumerate(ctx, thorough ? 7 : 5);
 		if (ctx.failed) return;
-		ctx.rc_campaign("tcp streams with faults and reuse", gen_c05(thorough ? 150000 : 40000), thorough ? 16000 : 400, 60, 1);
+		ctx.rc_campaign("tcp streams with faults and reuse", gen_c05(thorough ? 150000 : 40000), thorough ? 10000 : 400, 60, 1);
 	}
 	else if (ctx.opt.prop == "C06")
 	{
-		ctx.rc_campaign("tcp progress (small)", gen_c06(60000), thorough ? 8000 : 150, 40, 1);
-		ctx.rc_campaign("tcp progress (large)", gen_c06(thorough ? 2000000 : 300000), thorough ? 1200 : 40, 100, 2);
+		ctx.rc_campaign("tcp progress (small)", gen_c06(60000), thorough ? 5000 : 150, 40, 1);
+		ctx.rc_campaign("tcp progress (large)", gen_c06(thorough ? 2000000 : 300000), thorough ? 700 : 40, 100, 2);
 	}
 	else if (ctx.opt.prop == "C19")
 	{
